@@ -11,7 +11,8 @@ LEAN_MODULES = ["KmipModel.Props.C11"]
 RULE = ("pairs (prefix history by several clients, probe request): the probe is sent to the live engine and to a "
         "fresh KmipEngine opened on a copy of the database file taken just before; responses and resulting stores must "
         "be equal; probes are biased to identifier-less requests for the 14 handlers that read the ID placeholder and "
-        "to protocol-version / identity switches; non-trivial = the probe names no identifier, or follows a request "
+        "to protocol-version / identity switches, incl. unsupported versions and a request repeating the previous "
+        "request's version; non-trivial = the probe names no identifier, or follows a request "
         "with another version or identity")
 PROFILE = {"groups": 0.15, "restart": 0.0}
 PLACEHOLDER_OPS = ["get", "getAttributes", "getAttributeList", "activate", "revoke", "destroy", "encrypt", "decrypt",
@@ -53,6 +54,14 @@ def builder(g, E, do, length):
             line["req"] = {"version": v, "ts": None, "async": None, "bopt": None, "maxsize": None, "items": [it]}
             if g.p(0.5):
                 line["id"] = g.ident()
+        # protocol versions the server refuses, and a request repeating the version of the request before it
+        # (whatever the refused request left behind must not decide the next one)
+        x = g.r.random()
+        if x < 0.07:
+            line["req"]["version"] = g.ch([9, 15, 21, 30, 99])
+        elif x < 0.30 and last is not None:
+            line["req"]["version"] = last
+        last = line["req"]["version"]
         # fresh engine on a copy of the database, taken before the live engine sees the probe
         E.engine._data_store.dispose()
         copy = E.db + ".probe"
